@@ -702,6 +702,80 @@ pub fn run_c10(ctx: &Ctx, st: &mut Local) {
         e.exhaustive = true;
         e.samples.push(format!("{:?}", [&small[3][0], &small[20][0], &small[60][0]]));
     }
+    // (iv) long homogeneous histories: EVERY length of a default run up to a bound, and long repeats of
+    // every non-default operation at lengths around all powers of two, each followed by a short tail
+    let name = "E10long";
+    if ctx.engine_on(name) {
+        let tail = [Op::Value(16, 0x1234), Op::Corr(3, 5), Op::Mis(2, true), Op::Corr(1, 0), Op::Value(1, 1)];
+        let mut idx = 0u64;
+        let mut ok = 0u64;
+        let mut nodes = 0u64;
+        let maxrun: usize = if ctx.quick() { 70_000 } else { 200_000 };
+        let mut seq: Vec<Op> = Vec::with_capacity(maxrun + 8);
+        for n in 1..=maxrun {
+            let i = idx;
+            idx += 1;
+            if !ctx.sel.mine(i) {
+                continue;
+            }
+            nodes += 1;
+            if !ctx.take(name, i) {
+                continue;
+            }
+            seq.clear();
+            seq.extend(defaults(n));
+            seq.extend_from_slice(&tail[..1 + n % 5]);
+            if nodes % 16 == 1 {
+                ctx.begin(name, i, 20_000);
+            }
+            if c10_one(ctx, st, name, i, &seq) {
+                ok += 1;
+            }
+        }
+        let mut lens: Vec<usize> = (1..=64).collect();
+        for k in 6..=17u32 {
+            for d in [-1i64, 0, 1] {
+                lens.push(((1i64 << k) + d) as usize);
+            }
+        }
+        for mlt in 1..=4usize {
+            lens.push(32767 * mlt);
+            lens.push(10_000 * mlt);
+        }
+        lens.sort();
+        lens.dedup();
+        let reps: Vec<Op> = small.iter().filter(|o| o.len() == 1).map(|o| o[0]).filter(|o| !matches!(o, Op::Mis(_, false) | Op::Corr(_, 0))).collect();
+        for op in &reps {
+            for &n in &lens {
+                let i = idx;
+                idx += 1;
+                if !ctx.sel.mine(i) {
+                    continue;
+                }
+                nodes += 1;
+                if !ctx.take(name, i) {
+                    continue;
+                }
+                seq.clear();
+                seq.extend(std::iter::repeat(*op).take(n));
+                seq.extend_from_slice(&tail);
+                ctx.begin(name, i, 20_000);
+                if c10_one(ctx, st, name, i, &seq) {
+                    ok += 1;
+                }
+            }
+        }
+        ctx.end();
+        let e = st.eng(name);
+        e.states += nodes;
+        e.transitions += nodes;
+        e.traces += ok;
+        e.nontrivial += ok;
+        *e.outcomes.entry("lossless".into()).or_insert(0) += ok;
+        e.bound = format!("a default run of EVERY length 1..={} followed by a short tail; {} non-default operations each repeated n times for n in 1..=64 and around every power of two up to 2^17 (and multiples of 32767 and 10000), followed by a tail", maxrun, reps.len());
+        e.exhaustive = true;
+        e.samples.push("defaults(32767) ++ [Value(16, 0x1234), Corr(3, 5), Mis(2, true)]".into());
+    }
     // (iii) every depth <= 2 sequence after each of 12 fixed warm-up histories
     let name = "E10warm";
     if ctx.engine_on(name) {
